@@ -15,7 +15,7 @@ tvars == <<sc, l, s>>
 Ev == Rec[l]
 Req(p, cond) == (p \in Props) => cond
 
-S0 == [phase |-> "start", ins |-> [outcome |-> "none"], crashed |-> FALSE, pend |-> {}, twr |-> {}]
+S0 == [phase |-> "start", ins |-> [outcome |-> "none"], crashed |-> FALSE, pend |-> {}, twr |-> {}, rewritten |-> FALSE]
 R128 == <<0, 0, 0, 8, 0, 0, 0, 0>>          \* 0x0800_0000: the +/-128 MiB search window
 TraceInit == sc \in 1..NScen /\ l = First(sc) /\ s = S0
 Step(name) == l <= Last(sc) /\ Ev.ev = name /\ l' = l + 1 /\ sc' = sc
@@ -125,6 +125,9 @@ Mmap == Step("Mmap") /\ Req("C03", Has(Ev, "clobbers_foreign") => ~Ev.clobbers_f
 Munmap ==
   /\ Step("Munmap")
   /\ Req("C11", s.phase # "dropped" /\ s.ins.outcome = "none" => Ev.name \in s.pend)
+  \* Injectorpp!Unmap: the trampoline of a live installation goes only after the entry that leads into it was rewritten
+  /\ Req("C01", (s.phase = "installed" /\ s.ins.outcome = "ok" /\ Ev.name = s.ins.tramp_name) => s.rewritten)
+  /\ Req("C14", (s.phase = "installed" /\ s.ins.outcome = "ok" /\ Ev.name = s.ins.tramp_name) => s.rewritten)
   /\ s' = [s EXCEPT !.pend = @ \ {Ev.name}]
 
 \* writes: the named function's slot and owned trampolines only (C03); watched neighbours never
@@ -137,7 +140,8 @@ Write ==
   /\ Req("C13", Ev.region = "entry" => s.pend \subseteq s.twr)     \* transparency presupposes arrival
   /\ Req("C03", Ev.region \in {"entry", "tramp"})
   /\ Req("C03", Ev.region = "entry" => \A i \in 1..Len(Ev.changed) : Ev.changed[i] <= 16)
-  /\ s' = IF Ev.region = "tramp" THEN [s EXCEPT !.twr = @ \cup {Ev.name}] ELSE s
+  /\ s' = IF Ev.region = "tramp" THEN [s EXCEPT !.twr = @ \cup {Ev.name}]
+          ELSE IF Ev.region = "entry" /\ s.phase = "installed" THEN [s EXCEPT !.rewritten = TRUE] ELSE s
 
 Other == l <= Last(sc) /\ Ev.ev \in {"Note", "Mprotect", "Flush", "Target"}
          /\ l' = l + 1 /\ sc' = sc /\ s' = s
